@@ -48,7 +48,8 @@ PROPS["C01"] = {
     "rule": ("rapidcheck-generated (table, writer configuration, mtbl_dump filter) cases: adversarial key shapes "
              "(tiny alphabets incl. 00/7f/80/ff, empty key, long shared prefixes, lengths around 127/128 and 16383/16384, "
              "'%08x' keys, random bytes) x value shapes (empty .. larger than a block) x 6 compression types x levels x "
-             "block sizes x restart intervals x pools x foreign prefixes. Oracle: reader iteration and parsed `mtbl_dump -x` "
+             "block sizes x restart intervals x pools x foreign prefixes (4% of tables are written behind a sparse hole of 2 GiB-100 .. "
+             "4 GiB+4096). Oracle: reader iteration and parsed `mtbl_dump -x` "
              "output (25% of cases: the default quoted output, decoded per the man page) equal the generated sequence / filtered "
              "subsequence. A case is non-trivial when the file has >= 2 data "
              "blocks, or an entry length >= 128, or an empty key/value, or a key byte >= 0x80, or a non-default "
@@ -97,7 +98,8 @@ PROPS["C09"] = {
     },
     "src": "props/C09.cpp",
     "level": "translation_validation",
-    "rule": ("every generated writer run (C01's tables x configurations, and C08's add histories) is one 'program'; its output "
+    "rule": ("every generated writer run (C01's tables x configurations, and C08's add histories; 4% written at a start offset of about "
+             "2-4 GiB in a sparse file) is one 'program'; its output "
              "file is decoded by an independent decoder (harness/refcodec.h: own varint/fixed/CRC32C, system compression "
              "libraries) and every clause of the C09 statement is checked: prefix untouched, contiguous blocks, minimal "
              "length varints, CRC field = reference CRC of stored bytes, one index entry per block with value = minimal "
@@ -122,7 +124,8 @@ PROPS["C10"] = {
     },
     "src": "props/C10.cpp", "tools": True, "tool_bins": True,
     "level": "exploration",
-    "rule": ("C01 tables and C08 add histories (refused adds, empty table, foreign prefixes, pooled writers); the truth is "
+    "rule": ("C01 tables and C08 add histories (refused adds, empty table, foreign prefixes incl. start offsets of 2-4 GiB in a sparse "
+             "file, pooled writers); the truth is "
              "measured on the output file by the independent decoder (and cross-checked against the model of accepted adds); "
              "compared with all ten mtbl_metadata_* accessors and with the parsed output of mtbl_info (LC_ALL=C). "
              "Non-trivial: >= 2 data blocks, or refused adds, or a foreign prefix, or a pooled writer, or the empty table."),
@@ -463,7 +466,8 @@ PROPS["C18"] = {
         "level_text": ("Generated API histories composed of scenarios (writer/reader/iterators incl. non-tables; mergers over tables and "
                        "user sources with a possibly failing merge callback; sorters with 1..n chunks, pooled or not, destroyed before / "
                        "during / after iteration or written out, with a failing merge callback when un-pooled; filesets with dup handles, "
-                       "missing and non-table entries and reload_now; pools shared by several writers), every object destroyed at a "
+                       "missing and non-table entries, several rounds of setfile changes and reload_now; pools shared by several writers; half "
+                       "of the tables use large blocks of highly compressible values so that decompression has to grow its buffers), every object destroyed at a "
                        "generated point of its life cycle. Each history runs in a forked child; after a warm-up the set of open "
                        "descriptors, the table/temp-file mappings, the thread count, the temp-directory listing, LeakSanitizer and the "
                        "allocator's byte count are compared before and after. Exploration."),
